@@ -236,6 +236,39 @@ func c01(w *core.World, r *core.Report) {
 		}
 	}
 
+	// ---- DEVICE-ONLY-KEPT
+	r.Rule("DEVICE-ONLY-KEPT", 1, "a leaf that holds nothing but the device's own value (the running variant) is not deletable: LeafVariants.canDelete has a 'false' answer that is given on the outcome 'owner == RunningIntentName' of a comparison. Without it a container whose other leaves an intent gives up is deleted as a whole, together with leaves no intent ever defined.")
+	if cd := w.Func("pkg/tree", "LeafVariants", "canDelete"); cd != nil {
+		ok := false
+		for _, ret := range core.EffectiveReturns(cd) {
+			vals := core.ReturnValues(ret)
+			if len(vals) != 1 {
+				continue
+			}
+			mayFalse := false
+			for _, o := range append(core.Origins(vals[0]), vals[0]) {
+				if b, isC := core.ConstBool(o); isC && !b {
+					mayFalse = true
+				}
+			}
+			if !mayFalse {
+				continue
+			}
+			for _, a := range core.GuardAtoms(ret) {
+				x, y, eqOnTrue, isEq := core.EqTest(a.Cond)
+				if !isEq || eqOnTrue != a.True {
+					continue
+				}
+				for _, side := range []ssa.Value{x, y} {
+					if sv, isS := core.ConstString(side); isS && sv == "running" {
+						ok = true
+					}
+				}
+			}
+		}
+		r.Check(ok, "DEVICE-ONLY-KEPT", core.Site(cd, "false for a running-only leaf"), w.Pos(cd.Pos()), "no 'false' answer of canDelete is tied to the variant being the running one: device-only leaves become deletable")
+	}
+
 	// ---- ORIENT
 	r.Rule("ORIENT", 8, "every ordered comparison that selects the value kept in a precedence accumulator keeps the numerically lower priority (LeafVariants.GetHighestPrecedence / GetHighestPrecedenceValue, UpdateSlice.GetLowestPriorityValue, choicesCase.GetLowestPriorityValue(Old), getHighestPrecedenceValueOfBranch, getBestCaseName / getOldBestCaseName, populateChoiceCaseResolvers).")
 	for _, t := range []struct{ pkg, recv, name string }{
